@@ -260,6 +260,61 @@ fn raw_bytes(c: &Corpus, ep_label: &str, tier: Tier, seed: u64, known: &KnownFin
     let Some(ep) = c.eps.iter().find(|e| e.label() == ep_label) else { return r };
     let strat = prop::collection::vec(any::<u8>(), 0..64);
     let mut failed = BTreeSet::new();
+    // header sweep: every small / boundary value of the size field in the 2-byte and in the 3-byte (0x80 marker) form,
+    // with a defined and an undefined opcode, several tail lengths, and every truncation of each such frame
+    let mut sweep: Vec<Vec<u8>> = Vec::new();
+    {
+        let world = matches!(ep.ns(), Ns::World(_));
+        let opcode_len = if !world { 1 } else if ep.dir() == Direction::Client { 4 } else { 2 };
+        let defined: u32 = c.entries.iter().filter(|e| e.ns == ep.ns() && e.dir == ep.dir()).map(|e| e.opcode).min().unwrap_or(0);
+        let mut frames: Vec<Vec<u8>> = Vec::new();
+        for opcode in [defined, 0xFFFF_FFFFu32 >> (32 - 8 * opcode_len as u32).min(31), 0] {
+            let ob: Vec<u8> = opcode.to_le_bytes()[..opcode_len].to_vec();
+            for tail in [0usize, 1, 2, 9] {
+                if !world {
+                    let mut f = ob.clone();
+                    f.extend(std::iter::repeat(0xA5).take(tail));
+                    frames.push(f);
+                    continue;
+                }
+                let sizes: Vec<u32> = (0..=10).chain([0x7FFE, 0x7FFF, 0x8000, 0xFFFF, 0x01_0000, 0x7F_FFFF]).collect();
+                for s in sizes {
+                    if s <= 0xFFFF {
+                        let mut f = vec![(s >> 8) as u8, s as u8];
+                        f.extend(&ob);
+                        f.extend(std::iter::repeat(0xA5).take(tail));
+                        frames.push(f);
+                    }
+                    let mut f = vec![0x80 | (s >> 16) as u8, (s >> 8) as u8, s as u8];
+                    f.extend(&ob);
+                    f.extend(std::iter::repeat(0xA5).take(tail));
+                    frames.push(f);
+                }
+            }
+        }
+        for f in frames {
+            for cut in 0..=f.len().min(8) {
+                sweep.push(f[..f.len() - cut].to_vec());
+            }
+        }
+        sweep.sort();
+        sweep.dedup();
+    }
+    for bytes in &sweep {
+        crate::iso::trace_case(&|| json!({"endpoint": ep_label, "frame": vcommon::hex(bytes)}));
+        let o = ep.read_only(bytes);
+        r.evals += 1;
+        r.count(&format!("header-sweep.{}", o.kind()));
+        r.distinct.insert(vcommon::fnv(bytes));
+        if let Outcome::Panic { message, location } = &o {
+            let k = format!("panic:{}", rel_location(location));
+            if let Some(s) = known_sig(known, "C03", "c03", &format!("raw:{}", ep_label), &k) {
+                *r.known_hits.entry(s).or_insert(0) += 1;
+            } else if failed.insert(k.clone()) {
+                r.fails.push((format!("c03:raw:{}:{}", ep_label, k), trunc(message, 160), json!({"endpoint": ep_label, "frame": vcommon::hex(bytes), "library": o.short()})));
+            }
+        }
+    }
     let rc = std::cell::RefCell::new(&mut r);
     let _ = vcommon::prop_search(seed, vcommon::fnv(ep_label.as_bytes()), tier.pick(20_000, 2_000_000), &strat, |bytes, counting| {
         if !counting {
